@@ -600,17 +600,11 @@ where
             .write()
             .with(|mut shard| shard.emplace(record.clone(), &mut garbages, &mut notifiers));
 
-        // Notify waiters out of the lock critical section.
-        for notifier in notifiers {
-            let _ = notifier.send(Ok(Some(RawCacheEntry {
-                pipe: self.pipe.clone(),
-                record: record.clone(),
-                inner: self.inner.clone(),
-                source,
-            })));
-        }
-
         // Deallocate data out of the lock critical section.
+        //
+        // Hand the evicted records to the pipe before any waiter is woken up: a caller that resumes must find
+        // the evictions this insertion caused already queued for the disk cache, or a later version of an
+        // evicted key could be queued first and then be overtaken by the older one.
         let piped = self.pipe.is_enabled();
         if self.inner.event_listener.is_some() || piped {
             for (event, record) in garbages {
@@ -621,6 +615,16 @@ where
                     self.pipe.send(Piece::new(record));
                 }
             }
+        }
+
+        // Notify waiters out of the lock critical section.
+        for notifier in notifiers {
+            let _ = notifier.send(Ok(Some(RawCacheEntry {
+                pipe: self.pipe.clone(),
+                record: record.clone(),
+                inner: self.inner.clone(),
+                source,
+            })));
         }
 
         RawCacheEntry {
